@@ -43,7 +43,7 @@ def main(argv):
             raise SystemExit("unknown arg " + argv[i])
     meta = json.load(open(os.path.join(seed, "meta.json")))
     if checks is None:
-        checks = [meta["property"]]
+        checks = meta.get("checks") or [meta["property"]]
     os.makedirs("/tmp/wt", exist_ok=True)
     wt = tempfile.mkdtemp(prefix="eval_", dir="/tmp/wt")
     os.rmdir(wt)
